@@ -10,6 +10,8 @@ import (
 	"encoding/binary"
 	"fmt"
 	"io"
+	"sync"
+	"sync/atomic"
 	"testing"
 	"time"
 
@@ -35,6 +37,11 @@ type c11Case struct {
 	CtlWarm    int        `json:"warm"`    // bytes moved on the control tube before the junk
 	Interleave bool       `json:"interleave"` // honest control traffic continues during the junk
 	StopJunk   []c11Frame `json:"stopjunk"`   // frames injected WHILE the muxer is stopping (the peer withholds its answers, keeping the stopping window open)
+	// ReleaseMs > 0: the peer answers late but in time - everything it sends is held back until ReleaseMs after Stop began,
+	// then it completes the close handshake of every tube that was open when Stop began (and of none it requested
+	// afterwards), so that Stop finishes gracefully, before its forced close, with the StopJunk frames having met a
+	// muxer in the stopping state. 0: the peer's answers are lost for good (Stop ends through its forced close).
+	ReleaseMs int `json:"release,omitempty"`
 }
 
 var c11LenFields = []int{-1, -2, -3, 0, 0x7FFF, 0x8000, 0xFFF3, 0xFFF4, 0xFFFF, 1}
@@ -104,6 +111,10 @@ func c11Scenario(c c11Case, v *vlib.Verdict) {
 		t Tube
 	}
 	ctlCh := make(chan *Reliable, 1)
+	var accMu sync.Mutex // never held across a blocking call
+	var accepted []Tube   // every tube Accept handed out
+	var offeredLate []Tube // ... after the harness had seen the muxer in the stopping state
+	var stoppingSeen atomic.Bool
 	go func() {
 		first := true
 		for {
@@ -111,6 +122,12 @@ func c11Scenario(c c11Case, v *vlib.Verdict) {
 			if err != nil {
 				return
 			}
+			accMu.Lock()
+			accepted = append(accepted, tb)
+			if stoppingSeen.Load() {
+				offeredLate = append(offeredLate, tb)
+			}
+			accMu.Unlock()
 			if first {
 				first = false
 				if r, ok := tb.(*Reliable); ok {
@@ -195,32 +212,108 @@ func c11Scenario(c c11Case, v *vlib.Verdict) {
 		return
 	}
 	// stop: must return within 10 virtual seconds, also when frames keep arriving while it is stopping
+	var stopAt time.Duration
 	if len(c.StopJunk) > 0 {
-		// the peer stops answering (FINs stay unacknowledged), which keeps M in the stopping state until its forced close
+		// the peer stops answering (FINs stay unacknowledged), which keeps M in the stopping state until its forced
+		// close - or, with ReleaseMs, until the peer's held-back answers arrive
+		stopAt = p.Net.Elapsed()
+		release := time.Duration(c.ReleaseMs) * time.Millisecond
 		p.Net.Decide = func(dir, idx int, pkt []byte, now time.Duration) (memconn.Decision, bool) {
-			if dir == 0 {
+			if dir != 0 {
+				return memconn.Decision{}, false
+			}
+			if c.ReleaseMs <= 0 {
 				return memconn.Decision{Drop: true}, true
+			}
+			if now < stopAt+release {
+				return memconn.Decision{Delays: []time.Duration{stopAt + release - now}}, true
 			}
 			return memconn.Decision{}, false
 		}
 	}
+	// the tubes that are open when Stop begins (white box): a peer that answers late completes exactly their handshakes
+	var openAtStop []*Reliable
+	M.m.Lock()
+	for _, r := range M.reliableTubes {
+		openAtStop = append(openAtStop, r)
+	}
+	M.m.Unlock()
 	done := make(chan struct{})
 	go func() { M.Stop(); close(done) }()
+	if len(c.StopJunk) > 0 && c.ReleaseMs > 0 {
+		v.Label("frames-during-stop:peer-answers-late")
+		go ctlP.Close() // the honest peer closes its end too; its FIN and its ACK are held back until the release
+		time.AfterFunc(time.Duration(c.ReleaseMs)*time.Millisecond, func() {
+			for _, r := range openAtStop {
+				if r == ctlM {
+					continue // the honest peer muxer answers for the control tube
+				}
+				if raw := c11PeerCompletesClose(r); raw != nil {
+					p.Net.B.Inject(raw)
+				}
+			}
+		})
+	}
+	reqWhileStopping := 0
 	for _, f := range c.StopJunk {
 		time.Sleep(time.Duration(20+f.GapMs) * time.Millisecond)
 		if c11TargetsControl(f, ctlID) {
 			f.Tube = int(ctlID) + 2
+		}
+		if st := M.state.Load(); st == muxerStopping {
+			// from here on nothing may be admitted (muxer.go: "In this state, the muxer cannot create or accept new
+			// tubes"); every tube requested earlier has long been handed to the accept loop (it never blocks)
+			stoppingSeen.Store(true)
+			if f.Flags&(1<<REQIdx) != 0 && f.Short < 0 {
+				reqWhileStopping++
+			}
 		}
 		p.Net.B.Inject(c11Bytes(f, ctlID))
 	}
 	if len(c.StopJunk) > 0 {
 		v.Label("frames-during-stop")
 	}
+	if reqWhileStopping > 0 {
+		v.Label("tube-requested-while-stopping")
+	}
 	select {
 	case <-done:
+		if d := p.Net.Elapsed() - stopAt; len(c.StopJunk) > 0 && c.ReleaseMs > 0 && d < muxerTimeout {
+			v.Label("graceful-stop-after-late-answers")
+			if reqWhileStopping > 0 {
+				v.Label("graceful-stop-with-tube-requested-while-stopping")
+			}
+		}
 	case <-time.After(10 * time.Second):
 		v.Failf("C11:stop-does-not-return", "Muxer.Stop did not return within 10 virtual seconds after %d junk frames", len(c.Frames))
 	}
+	// Stop has returned ("gracefully closes every tube"): no tube that is still registered or that was ever handed
+	// out may be alive (white box: its closed channel), and nothing requested while stopping may have been offered.
+	if v.OK() {
+		var left []Tube
+		M.m.Lock()
+		for _, r := range M.reliableTubes {
+			left = append(left, r)
+		}
+		for _, u := range M.unreliableTubes {
+			left = append(left, u)
+		}
+		M.m.Unlock()
+		accMu.Lock()
+		left = append(left, accepted...)
+		late := append([]Tube(nil), offeredLate...)
+		accMu.Unlock()
+		for _, tb := range left {
+			if !c11TubeClosed(tb) {
+				v.Failf("C11:tube-alive-after-stop:"+c11Class(tb), "Muxer.Stop has returned but %s tube %d is not closed (its goroutines and timers keep running against the muxer's closed queues)", c11Class(tb), tb.GetID())
+				break
+			}
+		}
+		if v.OK() && len(late) > 0 {
+			v.Failf("C11:tube-offered-while-stopping:"+c11Class(late[0]), "Accept handed out %d tube(s) (first: %s tube %d) that the peer requested after the muxer had entered the stopping state", len(late), c11Class(late[0]), late[0].GetID())
+		}
+	}
+	// keep observing: retransmission and last-ack timers of anything left behind run for tens of virtual seconds
 	go P.Stop()
 	time.Sleep(3 * time.Minute)
 	v.NonTrivial = inconsistent > 0
@@ -231,6 +324,46 @@ func c11Scenario(c c11Case, v *vlib.Verdict) {
 	if c.Interleave {
 		v.Label("interleaved-honest-traffic")
 	}
+}
+
+// c11PeerCompletesClose builds the frame with which a peer that kept track of the tube completes its close handshake:
+// FIN + ACK, numbered with what the tube expects next and acknowledging everything the tube has sent (white box, in place
+// of a peer-side state machine for tubes that only the injected frames opened). nil when there is nothing to complete.
+func c11PeerCompletesClose(r *Reliable) []byte {
+	r.l.Lock()
+	st := r.tubeState
+	r.sender.m.Lock()
+	next := r.sender.frameNo
+	r.sender.m.Unlock()
+	r.l.Unlock()
+	if st == created || st == closed {
+		return nil
+	}
+	f := frame{tubeID: r.id, frameNo: r.recvWindow.getAck(), ackNo: next, data: []byte{}, flags: frameFlags{REL: true, ACK: true, FIN: true}}
+	return f.toBytes()
+}
+
+func c11TubeClosed(t Tube) bool {
+	var ch chan struct{}
+	switch x := t.(type) {
+	case *Reliable:
+		ch = x.closed
+	case *Unreliable:
+		ch = x.closed
+	}
+	select {
+	case <-ch:
+		return true
+	default:
+		return false
+	}
+}
+
+func c11Class(t Tube) string {
+	if t.IsReliable() {
+		return "reliable"
+	}
+	return "unreliable"
 }
 
 func c11Bucket(n int) int {
@@ -279,6 +412,8 @@ func c11Gen(t *rapid.T) c11Case {
 			}
 			return f
 		}), 1, 12).Draw(t, "stopjunk")
+		// six in ten of these: the peer answers late but in time (Stop ends gracefully, before the 1 s forced close)
+		c.ReleaseMs = rapid.SampledFrom([]int{0, 0, 0, 0, 60, 150, 300, 500, 700, 900}).Draw(t, "release")
 	}
 	// process-killing known findings are excluded by construction while they are open
 	if vlib.KnownOpen("panic:tubes.fromBytes:slice-bounds") {
